@@ -1405,6 +1405,12 @@ pub fn record(suite: &str, n: usize, seed: u64, arg: &str, out: &mut dyn Write) 
                 m.decode(len, &b2, 1);
             }
         }
+        // C06: constructors without a functional specification: whatever they hand out must be valid
+        "ctor" => {
+            let mut m = Machine::new(out);
+            m.reset();
+            ctor_suite(&mut m, &mut r, n);
+        }
         // C09: inputs generated by TLC (spec/SqrtPlan.tla), one {"num":..,"den":..} per line
         "sqrtfile" => {
             emit(out, json!({"k":"reset","build":BUILD}));
@@ -1458,6 +1464,111 @@ pub fn record(suite: &str, n: usize, seed: u64, arg: &str, out: &mut dyn Write) 
         _ => return false,
     }
     true
+}
+
+#[cfg(feature = "ark")]
+fn ctor_suite(m: &mut Machine, r: &mut ChaCha20Rng, n: usize) {
+    use ark_ff::UniformRand;
+    use ark_std::rand::distributions::{Distribution, Standard};
+    use rand_core::SeedableRng;
+    let mut put = |m: &mut Machine, name: &str, arg: &[u8], res: Result<Option<Element>, String>, i: usize| {
+        let mut ev = json!({"k":"ctor","name":name,"arg":arg,"dst":i % NREG});
+        match res {
+            Ok(Some(e)) => {
+                ev["some"] = json!(true);
+                ev["rep"] = rep(&e);
+                m.regs[i % NREG] = e;
+            }
+            Ok(None) => ev["some"] = json!(false),
+            Err(p) => ev["panic"] = json!(p),
+        }
+        emit(m.out, ev);
+    };
+    // structured byte strings for from_random_bytes: y = 0, +-1, small values, with and without the sign flag,
+    // all-zero / all-ones, every length 0..=64
+    let mut cands: Vec<Vec<u8>> = Vec::new();
+    let q = Q_LE.to_vec();
+    for y in [vec![0u8; 32], le_pow2(0, 32), le_sub_small(&q, 1), le_add_small(&vec![0; 32], 2), le_sub_small(&q, 2), q.clone(), vec![0xff; 32]] {
+        cands.push(y.clone());
+        let mut f = y.clone();
+        f[31] |= 0x80;
+        cands.push(f);
+    }
+    for k in 3..60u32 {
+        cands.push(le_add_small(&vec![0; 32], k));
+    }
+    for len in 0..=64usize {
+        cands.push(rbytes(r, len));
+        cands.push(vec![0u8; len]);
+    }
+    for _ in 0..n {
+        let mut b = rbytes(r, 32);
+        if below(r, 2) == 0 {
+            b[31] &= 0x9f;
+        }
+        cands.push(b);
+    }
+    for (i, c) in cands.iter().enumerate() {
+        if i % 100 == 99 {
+            m.reset();
+        }
+        let res = guarded(|| <AffinePoint as AffineRepr>::from_random_bytes(c).map(el));
+        put(m, "AffinePoint::from_random_bytes", c, res, i);
+    }
+    m.reset();
+    // samplers on seeded RNG streams
+    for i in 0..(n / 4 + 8) {
+        if i % 50 == 49 {
+            m.reset();
+        }
+        let sd = (i as u64).to_le_bytes();
+        let mut rng = rand_chacha::ChaCha20Rng::seed_from_u64(r.next_u64() ^ i as u64);
+        let (name, res): (&str, Result<Option<Element>, String>) = match i % 4 {
+            0 => ("Element::rand", guarded(|| Some(Element::rand(&mut rng)))),
+            1 => ("AffinePoint::rand", guarded(|| Some(el(AffinePoint::rand(&mut rng))))),
+            2 => ("Standard.sample::<Element>", guarded(|| Some(Distribution::<Element>::sample(&Standard, &mut rng)))),
+            _ => ("Standard.sample::<AffinePoint>", guarded(|| Some(el(Distribution::<AffinePoint>::sample(&Standard, &mut rng))))),
+        };
+        put(m, name, &sd, res, i);
+    }
+    // batch conversions of mixed representatives
+    m.reset();
+    load_alphabet(m, r);
+    let all: Vec<Element> = m.regs.to_vec();
+    let res = guarded(|| Element::normalize_batch(&all));
+    if let Ok(v) = res {
+        for (i, a) in v.iter().enumerate() {
+            let e = el(*a);
+            m.regs[i] = e;
+            emit(m.out, json!({"k":"conv","name":"normalize_batch[all]","a":i,"dst":i,"rep":rep(&e)}));
+        }
+    }
+    load_alphabet(m, r);
+    let all: Vec<Element> = m.regs.to_vec();
+    let res = guarded(|| {
+        use ark_ec::ScalarMul;
+        Element::batch_convert_to_mul_base(&all)
+    });
+    if let Ok(v) = res {
+        for (i, a) in v.iter().enumerate() {
+            let e = el(*a);
+            m.regs[i] = e;
+            emit(m.out, json!({"k":"conv","name":"batch_convert_to_mul_base[all]","a":i,"dst":i,"rep":rep(&e)}));
+        }
+    }
+}
+#[cfg(not(feature = "ark"))]
+fn ctor_suite(m: &mut Machine, r: &mut ChaCha20Rng, _n: usize) {
+    // the minimal build has no samplers / random-bytes constructor: constants and conversions only
+    load_alphabet(m, r);
+    for i in 0..CONST_FORMS.len() {
+        m.konst(i, i % NREG);
+    }
+    for a in 0..NREG {
+        for f in 0..CONV_FORMS.len() {
+            m.conv(f, a, a);
+        }
+    }
 }
 
 #[cfg(feature = "ark")]
